@@ -1,6 +1,10 @@
 (* Property C10: MPOGraph construction (from_terms / add_to_graph) as weighted automata.
-   Only statements; every proof is `exact <lemma from Proofs/AutomatonP.v or Proofs/AutomatonP2.v>`. *)
+   Only statements; every proof is `exact <lemma from Proofs/AutomatonP.v, AutomatonP2.v,
+   AutomatonMultiP.v, BondSumP.v or ExpDecayP.v>`. *)
 From TenpyV Require Import Base.Prelude Model.Automaton Proofs.AutomatonP Proofs.AutomatonP2.
+From TenpyV Require Model.AutomatonMulti Proofs.AutomatonMultiP Model.BondSum Proofs.BondSumP
+  Model.ExpDecay Proofs.ExpDecayP.
+Import Model.AutomatonMulti Model.BondSum Model.ExpDecay.
 Open Scope Z_scope.
 
 (* the decision procedure used by the correspondence checkers is sound *)
@@ -72,6 +76,162 @@ Example T10_ex_peqb :
   peqb [((1,0), [(0%nat,2)]); ((2,1), [(1%nat,3)]); ((-1,0), [(0%nat,2)])] [((2,1), [(1%nat,3)])] = true.
 Proof. vm_compute. reflexivity. Qed.
 
+(* ------------------------------------------------------------------ multi-site terms
+   (Model/AutomatonMulti.v: MultiCouplingTerms.add_to_graph with its left / right prefix states and
+   the connection at switchLR; the new definitions use add_edge / add_skip / add_string / close /
+   denote of Model/Automaton.v; add_mterm itself is tied to the code through T10_multi_special_cases
+   (add_cterm and add_oterm, which the correspondence stream c10_build executes against the
+   implementation, ARE add_mterm on the embedded terms) and through the dense oracle only) *)
+
+(* the names of the tuple keys ('left', i, op, str, j, ...) / ('right', ...) inside `key` are
+   injective and disjoint; the one-triple left key is the Lbl key of CouplingTerms.add_to_graph *)
+Theorem T10_multi_key_names :
+  (forall p p', kleft p = kleft p' -> p = p') /\ (forall q q', kright q = kright q' -> q = q') /\
+  (forall p q, kleft p <> kright q) /\ kleft [] = IdL /\ kright [] = IdR /\
+  (forall i a s, kleft [(i, a, s)] = Lbl i a s).
+Proof. exact AutomatonMultiP.multi_key_names. Qed.
+
+(* MultiCouplingTerms.add_to_graph, one term with any number of operators on each side of switchLR:
+   the key-injectivity / no-orphan invariant mwf is preserved and exactly the operator of the term is
+   added to the denotation (all chain lengths, all graphs with the invariant) *)
+Theorem T10_add_to_graph_multi : forall g t, mwf g -> mterm_ok (length g) t = true ->
+  mwf (add_mterm g t) /\
+  peq (denote (close (add_mterm g t))) (nf_mterm t :: denote (close g)).
+Proof. exact AutomatonMultiP.add_to_graph_multi. Qed.
+
+(* two-site and on-site terms are the special cases of multi-site terms: the correspondence-checked
+   add_cterm / add_oterm are add_mterm *)
+Theorem T10_multi_special_cases :
+  (forall g t, add_cterm g t = add_mterm g (mterm_of_cterm t)) /\
+  (forall g t, add_oterm g t = add_mterm g (mterm_of_oterm t)) /\
+  (forall t, nf_cterm t = nf_mterm (mterm_of_cterm t)) /\
+  (forall t, nf_oterm t = nf_mterm (mterm_of_oterm t)) /\
+  (forall L t, cterm_ok L t = true -> mterm_ok L (mterm_of_cterm t) = true) /\
+  (forall L t, oterm_ok L t = true -> mterm_ok L (mterm_of_oterm t) = true).
+Proof. exact AutomatonMultiP.multi_special_cases. Qed.
+
+Theorem T10_mwf_empty : forall L, mwf (empty_graph L).
+Proof. exact AutomatonMultiP.mwf_empty. Qed.
+
+(* MPOGraph.from_terms with on-site, two-site and multi-site terms denotes exactly their sum *)
+Theorem T10_from_terms_multi : forall L ots cts mts,
+  forallb (oterm_ok L) ots = true -> forallb (cterm_ok L) cts = true -> forallb (mterm_ok L) mts = true ->
+  mwf (fold_left add_mterm mts (fold_left add_cterm cts (fold_left add_oterm ots (empty_graph L)))) /\
+  peq (denote (from_terms_m L ots cts mts)) (map nf_oterm ots ++ map nf_cterm cts ++ map nf_mterm mts).
+Proof. exact AutomatonMultiP.from_terms_m_all. Qed.
+
+Example T10_ex_multi_ok : forallb (mterm_ok 6) AutomatonMultiP.ex_mts = true.
+Proof. exact AutomatonMultiP.ex_multi_ok. Qed.
+Example T10_ex_multi_mwf : mwf (fold_left add_mterm AutomatonMultiP.ex_mts (empty_graph 6)).
+Proof. exact AutomatonMultiP.ex_multi_mwf. Qed.
+(* four multi terms sharing left and right states, one two-site, one on-site term: 7 states at most *)
+Example T10_ex_from_terms_multi :
+  let g := from_terms_m 6 [mkOT 1 4 (7, 0)] [mkCT 0 5 9 3 7 (1, 1)] AutomatonMultiP.ex_mts in
+  std_form g = true /\ map (@length edge) g = [3; 5; 7; 6; 4; 3]%nat /\
+  normalize (denote g) =
+    [((2, 0), [(0%nat, 5); (1%nat, 9); (2%nat, 6)]);
+     ((1, 0), [(0%nat, 5); (1%nat, 9); (2%nat, 6); (3%nat, 2); (4%nat, 7); (5%nat, 8)]);
+     ((3, 1), [(0%nat, 5); (1%nat, 9); (2%nat, 6); (3%nat, 7); (5%nat, 8)]);
+     ((1, 1), [(0%nat, 5); (1%nat, 9); (2%nat, 9); (3%nat, 7)]);
+     ((7, 0), [(1%nat, 4)]); ((0, 1), [(1%nat, 5); (2%nat, 1); (3%nat, 4)])] /\
+  peqb (denote g) (map nf_oterm [mkOT 1 4 (7, 0)] ++ map nf_cterm [mkCT 0 5 9 3 7 (1, 1)] ++
+                   map nf_mterm AutomatonMultiP.ex_mts) = true.
+Proof. exact AutomatonMultiP.ex_from_terms_m. Qed.
+(* add_multi_coupling_term's splitting at switchLR (example only, not proved in general) *)
+Example T10_ex_split_term :
+  split_term [(0%nat, 5); (2%nat, 6); (4%nat, 7); (5%nat, 8)] [9; 2; 0] 3 (1, 0) =
+    mkMT [(0%nat, 5, 9); (2%nat, 6, 2)] [(5%nat, 8, 0); (4%nat, 7, 2)] 3 2 (1, 0) /\
+  nf_mterm (split_term [(0%nat, 5); (2%nat, 6); (4%nat, 7); (5%nat, 8)] [9; 2; 0] 3 (1, 0)) =
+    ((1, 0), term_word [(0%nat, 5); (2%nat, 6); (4%nat, 7); (5%nat, 8)] [9; 2; 0]) /\
+  nf_mterm (split_term [(0%nat, 5); (2%nat, 6); (3%nat, 7); (5%nat, 8)] [9; 0; 0] 3 (3, 1)) =
+    ((3, 1), term_word [(0%nat, 5); (2%nat, 6); (3%nat, 7); (5%nat, 8)] [9; 0; 0]).
+Proof. exact AutomatonMultiP.ex_split_term. Qed.
+
+(* ------------------------------------------------------------------ nearest-neighbour bond form
+   (Model/BondSum.v: CouplingTerms.to_nn_bond_Arrays + OnsiteTerms.add_to_nn_bond_Arrays with
+   distribute (1/2, 1/2) and the boundary exceptions, as called by calc_H_bond; weights doubled so
+   that 1/2 is exact; tied to the code through this theorem and the dense oracle only) *)
+Theorem T10_bond_sum : forall L ots cts, (2 <= L)%nat ->
+  forallb (oterm_ok L) ots = true ->
+  forallb (fun t => Nat.eqb (ct_j t) (S (ct_i t)) && (ct_j t <? L)%nat) cts = true ->
+  peq (bond_sum L ots cts) (pscale (2, 0) (map nf_oterm ots ++ map nf_cterm cts)).
+Proof. exact BondSumP.bond_sum_terms. Qed.
+
+(* finite chains: H_bond has L entries and H_bond[0] is None (the assertion of calc_H_bond) *)
+Theorem T10_bond0_empty : forall L ots cts, (2 <= L)%nat ->
+  forallb (oterm_ok L) ots = true ->
+  forallb (fun t => Nat.eqb (ct_j t) (S (ct_i t)) && (ct_j t <? L)%nat) cts = true ->
+  length (h_bond true L ots cts) = L /\ nth 0 (h_bond true L ots cts) [] = [].
+Proof. exact BondSumP.bond0_empty. Qed.
+
+(* infinite bc (one unit cell, sites modulo L, no boundary exceptions, bond 0 joins sites L-1 and 0) *)
+Theorem T10_bond_sum_infinite : forall L ots cts, (2 <= L)%nat ->
+  forallb (oterm_ok L) ots = true ->
+  forallb (fun t => Nat.eqb (ct_j t) (S (ct_i t)) && (ct_i t <? L)%nat) cts = true ->
+  peq (bond_sum_inf L ots cts) (pscale (2, 0) (map nf_oterm ots ++ map (nf_nn_inf L) cts)).
+Proof. exact BondSumP.bond_sum_inf_terms. Qed.
+
+Example T10_ex_bond_sum :
+  (2 <= 4)%nat /\ forallb (oterm_ok 4) BondSumP.ex_ots = true /\
+  forallb (fun t => Nat.eqb (ct_j t) (S (ct_i t)) && (ct_j t <? 4)%nat) BondSumP.ex_cts = true /\
+  normalize (bond_sum 4 BondSumP.ex_ots BondSumP.ex_cts)
+  = normalize (pscale (2, 0) (map nf_oterm BondSumP.ex_ots ++ map nf_cterm BondSumP.ex_cts)) /\
+  normalize (bond_sum 4 BondSumP.ex_ots BondSumP.ex_cts)
+  = [((6, 0), [(0%nat, 1); (1%nat, 2)]); ((2, 0), [(0%nat, 3)]); ((0, 2), [(1%nat, 1); (2%nat, 2)]);
+     ((-2, 0), [(1%nat, 5)]); ((2, 2), [(2%nat, 3)]); ((4, 2), [(2%nat, 5)]);
+     ((2, -2), [(2%nat, 6); (3%nat, 7)]); ((0, 4), [(3%nat, 4)])].
+Proof. exact BondSumP.bond_sum_terms_ex. Qed.
+Example T10_ex_bond_sum_infinite :
+  forallb (oterm_ok 4) BondSumP.ex_ots = true /\
+  forallb (fun t => Nat.eqb (ct_j t) (S (ct_i t)) && (ct_i t <? 4)%nat) BondSumP.ex_cts_inf = true /\
+  normalize (bond_sum_inf 4 BondSumP.ex_ots BondSumP.ex_cts_inf)
+  = normalize (pscale (2, 0) (map nf_oterm BondSumP.ex_ots ++ map (nf_nn_inf 4) BondSumP.ex_cts_inf)) /\
+  nth 0 (h_bond false 4 BondSumP.ex_ots BondSumP.ex_cts_inf) [] = [((10, 0), 6, 7); ((1, 0), 0, 3); ((0, 2), 4, 0)] /\
+  coef (bond_sum_inf 4 BondSumP.ex_ots BondSumP.ex_cts_inf) [(0%nat, 7); (3%nat, 6)] = (10, 0).
+Proof. exact BondSumP.bond_sum_inf_terms_ex. Qed.
+
+(* ------------------------------------------------------------------ exponentially decaying terms
+   (Model/ExpDecay.v: the finite branch of ExponentiallyDecayingTerms.add_to_graph for uniform lambda
+   and the default subsites; lambda is a Gaussian integer so that the weights stay exact; built from
+   add_edge / close / denote of Model/Automaton.v) *)
+Theorem T10_expdecay : forall L n a s b lam w, (2 <= L)%nat ->
+  peq (denote (close (add_exp L n a s b lam w (empty_graph L)))) (nf_exp L a s b lam w).
+Proof. exact ExpDecayP.T10_expdecay. Qed.
+
+(* added to a graph of on-site and two-site terms: sum_{i<j} strength * lambda^(j-i) A_i S.. B_j more *)
+Theorem T10_expdecay_add : forall L n a s b lam w g, wf g = true -> length g = L ->
+  peq (denote (close (add_exp L n a s b lam w g))) (nf_exp L a s b lam w ++ denote (close g)).
+Proof. exact ExpDecayP.expdecay_add. Qed.
+
+(* any number of exponentially decaying terms with the labels key_nr = n, n+1, ... *)
+Theorem T10_expdecay_add_all : forall L ts n g, wf g = true -> length g = L ->
+  peq (denote (close (add_exps L n ts g))) (flat_map (nf_xterm L) ts ++ denote (close g)).
+Proof. exact ExpDecayP.expdecay_add_all_wf. Qed.
+
+Example T10_ex_expdecay :
+  (2 <= 4)%nat /\
+  normalize (denote (close (add_exp 4 1000 1 2 3 (1, 1) (3, 0) (empty_graph 4)))) =
+    [((-6, 6), [(0%nat, 1); (1%nat, 2); (2%nat, 2); (3%nat, 3)]);
+     ((0, 6), [(0%nat, 1); (1%nat, 2); (2%nat, 3)]);
+     ((3, 3), [(0%nat, 1); (1%nat, 3)]);
+     ((0, 6), [(1%nat, 1); (2%nat, 2); (3%nat, 3)]);
+     ((3, 3), [(1%nat, 1); (2%nat, 3)]);
+     ((3, 3), [(2%nat, 1); (3%nat, 3)])] /\
+  normalize (nf_exp 4 1 2 3 (1, 1) (3, 0)) =
+  normalize (denote (close (add_exp 4 1000 1 2 3 (1, 1) (3, 0) (empty_graph 4)))).
+Proof. exact ExpDecayP.ex_T10_expdecay. Qed.
+Example T10_ex_expdecay_add :
+  wf ExpDecayP.ex_g0 = true /\ length ExpDecayP.ex_g0 = 3%nat /\ fresh_in 1000 ExpDecayP.ex_g0 = true /\
+  normalize (denote (close (add_exp 3 1000 1 2 3 (2, 0) (3, 0) ExpDecayP.ex_g0))) =
+    [((12, 0), [(0%nat, 1); (1%nat, 2); (2%nat, 3)]);
+     ((6, 0), [(0%nat, 1); (1%nat, 3)]);
+     ((7, 0), [(0%nat, 5); (2%nat, 6)]);
+     ((6, 0), [(1%nat, 1); (2%nat, 3)]);
+     ((2, 1), [(1%nat, 4)])] /\
+  normalize (nf_exp 3 1 2 3 (2, 0) (3, 0) ++ denote (close ExpDecayP.ex_g0)) =
+  normalize (denote (close (add_exp 3 1000 1 2 3 (2, 0) (3, 0) ExpDecayP.ex_g0))).
+Proof. exact ExpDecayP.ex_expdecay_add. Qed.
+
 Print Assumptions T10_peqb_sound.
 Print Assumptions T10_hermitian.
 Print Assumptions T10_insert_edge.
@@ -79,3 +239,14 @@ Print Assumptions T10_add_to_graph_onsite.
 Print Assumptions T10_add_to_graph_coupling.
 Print Assumptions T10_from_terms_wf.
 Print Assumptions T10_from_terms.
+Print Assumptions T10_multi_key_names.
+Print Assumptions T10_add_to_graph_multi.
+Print Assumptions T10_multi_special_cases.
+Print Assumptions T10_mwf_empty.
+Print Assumptions T10_from_terms_multi.
+Print Assumptions T10_bond_sum.
+Print Assumptions T10_bond0_empty.
+Print Assumptions T10_bond_sum_infinite.
+Print Assumptions T10_expdecay.
+Print Assumptions T10_expdecay_add.
+Print Assumptions T10_expdecay_add_all.
